@@ -33,6 +33,7 @@ def member_text(e):
 def run(ctx):
     u = ctx.ast(UNIT)
     ctx.rule("R19.1", "SENTINEL: a field whose `none` value is the literal -1 is never converted to bool (tested by truthiness)")
+    ctx.rule("R19.10", "LOG-DOMAIN: createBinding and setSlotSubPath keep the bounds of a log-scale parameter as logarithms whatever its type; every numeric branch of setSlotSub therefore applies exp to the clamped value exactly when the scale is logarithmic, so that the emitted value is in the parameter's declared range")
     ctx.rule("R19.2", "CLAMP-THEN-EMIT: in setSlotSub the clamp statements compute clamp(v,mn,mx), precede the rtosc_message that emits v, and only monotone library functions are applied to v in between")
     ctx.rule("R19.3", "FORMAT: every variadic OSC constructor call in automations.cpp passes the promoted C type its type tag takes")
     ctx.rule("R19.4", "KEYS: the metadata keys read by createBinding / setSlotSubPath are emitted by rLinear/rLog/rLogWithLogmin, and strstr(scale,\"log\") separates the scale values those macros emit")
@@ -251,6 +252,18 @@ def run(ctx):
         ctx.ob("R19.6", q, not late, site=A.where(top[calls[0]]), detail={"fields_read_by_updateMapping": sorted(read_fields), "stored_after_the_call": late},
                what="%s computes the mapping before it stores %s" % (q, late))
 
+    # ---- R19.10 premise: where the bounds are taken, a logarithmic scale turns them into logarithms for every parameter type
+    for q10 in ("AutomationMgr::createBinding", "AutomationMgr::setSlotSubPath"):
+        f10 = u.function(q10)
+        logs10 = [x for x in A.walk(u.body(f10)) if x.get("kind") == "BinaryOperator" and x.get("opcode") == "=" and
+                  A.strip_casts(A.kids(x)[0]).get("kind") == "MemberExpr" and A.strip_casts(A.kids(x)[0]).get("name") in ("param_min", "param_max") and
+                  any(A.callee_name(c_) in ("logf", "log", "log10f", "log2f") for c_ in A.calls_in(A.kids(x)[1]))]
+        ctx.require(len(logs10) >= 2, "R19.10: %s no longer stores both bounds of a log-scale parameter as logarithms" % q10)
+        for x in logs10:
+            for anc in u.ancestors(x):
+                if anc.get("kind") == "IfStmt" and any(y.get("kind") == "MemberExpr" and y.get("name") == "param_type" for y in A.walk(A.kids(anc)[0])):
+                    raise AnalysisBroken("R19.10: in %s the logarithmic bounds depend on the parameter type; the rule is written for bounds that are logarithms for every type" % q10)
+
     # ---- R19.2
     fn = u.function("AutomationMgr::setSlotSub")
     emits = [c for c in A.calls_in(u.body(fn), "rtosc_message")]
@@ -290,6 +303,7 @@ def run(ctx):
                         start, inner_in = i + 1, d["id"]
         bad = []
         foreign = []
+        exp_applied = {}
         for scale in (0, 1):
             for x0 in (0.5, 2.0, 2.5, 9.75, 10.0, 11.5):
                 env = {i_: x0 for i_ in (inputs if inner_in is None else {inner_in})}
@@ -301,8 +315,11 @@ def run(ctx):
                         return scale
                     return NotImplemented
 
-                def call(name, vals, n):
+                def call(name, vals, n, scale=scale, x0=x0):
                     if name in MONOTONE and len(vals) == 1:
+                        if name.startswith("exp"):
+                            exp_applied.setdefault((scale, x0), 0)
+                            exp_applied[(scale, x0)] += 1
                         return vals[0]          # a monotone map keeps the value inside the image of [min,max]: tracked as identity
                     fns = [f for f in u.functions.get(name, []) if u.body(f) is not None]
                     if len(fns) == 1:
@@ -321,6 +338,13 @@ def run(ctx):
                 exp = min(max(x0, LO), HI)
                 if out is None or out != out or (float(out) != exp if tag == "f" else int(out) != int(exp)):
                     bad.append({"mapped": x0, "log_scale": scale, "emitted": None if out is None or out != out else out, "expected": exp})
+        # R19.10: the bounds of a log-scale parameter are kept as logarithms (createBinding / setSlotSubPath do so for every
+        # type), so the emitted value must go through exp exactly when the scale is logarithmic
+        wrong10 = [{"log_scale": sc, "mapped": x_, "exp_applied": exp_applied.get((sc, x_), 0)} for sc in (0, 1) for x_ in (0.5, 2.0, 2.5, 9.75, 10.0, 11.5)
+                   if exp_applied.get((sc, x_), 0) != sc]
+        ctx.ob("R19.10", "setSlotSub '%s'" % tag, not wrong10, site=A.where(c), detail={"mismatches": wrong10[:4]},
+               key="R19.10:setSlotSub:%s" % tag,
+               what="setSlotSub '%s': for a logarithmic scale the bounds are stored as logarithms, but the emitted value goes through exp %s - the message carries the logarithm of the value (below the declared minimum), or a linear value exponentiated" % (tag, [(w["log_scale"], w["exp_applied"]) for w in wrong10[:2]]))
         n2 += 1
         ctx.ob("R19.2", "setSlotSub '%s'" % tag, arg is not None and not bad, site=A.where(c),
                detail={"cases": 12, "mismatches": bad[:4], "non_monotone_calls": sorted(set(foreign))},
